@@ -256,6 +256,19 @@ func regImmShift(f binaryExprFunc, i instruction, bits uint8, w expr.Width) expr
 	return f(regLoad(rs1, i, w), immShift, w)
 }
 
+// signedRem calculates signed division remainder of e1 and e2 of width w
+// according to the RISC-V specification: The remainder has the sign of the
+// dividend e1. Remainder of division by zero is e1.
+func signedRem(e1, e2 expr.Expr, w expr.Width) expr.Expr {
+	unsigned := exprtools.Mod(exprtools.Abs(e1, w), exprtools.Abs(e2, w), w)
+	return exprtools.BoolCond(
+		exprtools.IntNegative(e1, w),
+		exprtools.Negate(unsigned, w),
+		unsigned,
+		w,
+	)
+}
+
 func sext(e expr.Expr, signBit uint8, w expr.Width) expr.Expr {
 	return exprtools.SignExtend(e, expr.ConstFromUint(signBit), w)
 }
